@@ -83,9 +83,13 @@ def decode_oracle(o):
         p, ne = 1, el + 1
     if len(o) < p + ne: return ("einval",)
     if ne > 3: return ("skip",)            # implementation limit (int32 exponent): not judged here
+    if len(o) == p + ne: return ("skip",)  # no mantissa octets at all: not a well-formed 8.5.7.5 number, not judged
     e = int.from_bytes(o[p:p + ne], "big", signed=True)
     n = int.from_bytes(o[p + ne:], "big")
     if n == 0: return ("ok", neg << 63, 0)
+    # the accumulation `m = ldexp(m, 8) + octet` is done in a double: a mantissa of >= 2^1024 is an
+    # implementation limit (ERANGE even if a negative exponent brings the value back in range)
+    if n.bit_length() > 1023: return ("skip",)
     k = e * basef + scale
     nb = n.bit_length()
     # avoid astronomically large integers: decide far overflow / underflow by magnitude
